@@ -10,6 +10,9 @@ Driver ops running the GENERATED methods of `Coupling` / `MaskedAutoregressive` 
          then the same four of the hand model;  `condition=None` iff `cond_dim = -1`
   gnet couplingt / maft …same fields…
       -> GENERATED `transform(x)` and `inverse(y)` (the plain methods): two fields
+  gnet cinit <transformer.shape> <transformer.cond_shape|none> <d> <dim> <cond_dim|-1> <width> <depth>
+  gnet minit <transformer.shape> <transformer.cond_shape|none> <dim> <cond_dim|-1> <width> <depth>
+      -> GENERATED `__init__` fragment: `ValueError` | `<shape> <cond_shape|none> [<untransformed_dim> <dim>]`
   gnet idx <xs> <i>            `Nw.idx xs i`       (traced `x[i]`: clamped)
   gnet atset <ys> <i> <v>      `Nw.atSet (Nw.atIdx (Nw.at_ ys) i) v`   (`y.at[i].set(v)`: dropped out of range)
       TF = AFF <init> | AFFM <min_scale> <init> | AFF0 <init> | RQS <knots> <lo> <hi> <softmax_adjust> <min_derivative> <init>
@@ -37,6 +40,19 @@ private def two (b : Bij (List Float) (Option (List Float)) Float) (x y : List F
   s!"{showFs (b.fwd x c)} {showFs (b.inv y c)}"
 
 def gnet : Handler
+  | ["cinit", tshape, tcond, d, dim, cond, w, dep] => do
+      let tc ← (if tcond == "none" then pure none else do pure (some (← parseNats tcond)) : Except String (Option (List Nat)))
+      let t : Nw.TSpec := ⟨← parseNats tshape, tc⟩
+      match GenNet.Coupling.initShapes t (← parseNat d) (← parseNat dim) (← parseCond cond) (← parseNat w) (← parseNat dep) with
+      | none => pure "ValueError"
+      | some (sh, csh, d', dim') =>
+          pure s!"{showNats sh} {match csh with | none => "none" | some l => showNats l} {d'} {dim'}"
+  | ["minit", tshape, tcond, dim, cond, w, dep] => do
+      let tc ← (if tcond == "none" then pure none else do pure (some (← parseNats tcond)) : Except String (Option (List Nat)))
+      let t : Nw.TSpec := ⟨← parseNats tshape, tc⟩
+      match GenNet.Maf.initShapes t (← parseNat dim) (← parseCond cond) (← parseNat w) (← parseNat dep) with
+      | none => pure "ValueError"
+      | some (sh, csh) => pure s!"{showNats sh} {match csh with | none => "none" | some l => showNats l}"
   | ["idx", xs, i] => do pure (showF (Nw.idx (← parseFs xs) (← parseNat i)))
   | ["atset", ys, i, v] => do pure (showFs (Nw.atSet (Nw.atIdx (Nw.at_ (← parseFs ys)) (← parseNat i)) (← parseF v)))
   | kind :: act :: rest0 => do
